@@ -88,19 +88,19 @@ func runC19(c *Ctx) {
 		var a []ssa.Value
 		if p.Func("app.postRequest") != nil {
 			if pr = c.UniqueCall("C19.I", p, f, false, appPkg+".postRequest"); pr != nil {
-				a = CallOf(pr).Args
+				a = PArgs(CallOf(pr))
 			}
 		} else if nr := c.UniqueCall("C19.I", p, f, false, ModPath+"/app/types.NewRequest"); nr != nil {
 			if ws := c.UniqueCall("C19.I", p, f, false, storeIface+".WriteRequest"); ws != nil && SameValue(Args(CallOf(ws))[2], nr.(ssa.Value)) {
 				pr = nr
-				a = append([]ssa.Value{nil, nil}, CallOf(nr).Args...)
+				a = append([]ssa.Value{nil, nil}, PArgs(CallOf(nr))...)
 			} else if ws != nil {
 				c.Bad("C19.I", "proxy:stores-the-new-request", p, ws.Pos(), "the request written to the store is not the one built by types.NewRequest in proxyHandler")
 			}
 		}
 		wr := c.UniqueCall("C19.I", p, f, false, appPkg+".waitForResponse")
 		if pr != nil && wr != nil {
-			b := CallOf(wr).Args
+			b := PArgs(CallOf(wr))
 			c.Check("C19.I", "proxy:same-pair-stored-and-awaited", p, wr.Pos(), SameValue(a[2], b[2]) && SameValue(a[3], b[3]), "the response is awaited under the same (backend ID, request ID) the request was stored under", "proxyHandler stores the request under ("+PathOf(a[2])+", "+PathOf(a[3])+") but waits for the response under ("+PathOf(b[2])+", "+PathOf(b[3])+"): the client can receive another request's response or time out")
 			c.PathIs("C19.I", "proxy:request-id-is-own", p, pr.Pos(), a[3], "the request ID is this call's own (App Engine request ID parameter)", P(f, 2))
 			c.PathIs("C19.I", "proxy:backend-from-lookup", p, pr.Pos(), a[2], "the backend is the one LookupBackend returned", "result0:"+storeIface+".LookupBackend")
@@ -163,7 +163,7 @@ func runC19(c *Ctx) {
 			}
 			c.Check("C19.I", "proxy:stores-own-serialised-request", p, pr.Pos(), okBytes, "the bytes stored are read from the buffer this request was serialised into (r.Write)", "the bytes handed to postRequest are not the serialisation of the handler's own request")
 			if rr := c.UniqueCall("C19.I", p, f, false, "net/http.ReadResponse"); rr != nil {
-				reaches, _ := DerivesFrom(CallOf(rr).Args[0], func(v ssa.Value) bool { return v == wr.(ssa.Value) }, func(ssa.Value) bool { return false })
+				reaches, _ := DerivesFrom(PArgs(CallOf(rr))[0], func(v ssa.Value) bool { return v == wr.(ssa.Value) }, func(ssa.Value) bool { return false })
 				c.Check("C19.I", "proxy:parses-awaited-bytes", p, rr.Pos(), reaches, "the response parsed is the bytes waitForResponse returned", "http.ReadResponse does not parse the bytes returned by waitForResponse")
 				c.ArgIs("C19.I", "proxy:parses-against-own-request", p, rr, 1, "parsed against the handler's own request", P(f, 4))
 			}
@@ -180,7 +180,7 @@ func runC19(c *Ctx) {
 			ok504 := false
 			if ifi != nil {
 				for _, call := range Calls(f, appPkg+".reportError") {
-					if call.Block() == ifi.Block().Succs[fail] && isConstInt(CallOf(call).Args[3], 504) {
+					if call.Block() == ifi.Block().Succs[fail] && isConstInt(PArgs(CallOf(call))[3], 504) {
 						ok504 = true
 					}
 				}
@@ -227,8 +227,8 @@ func runC19(c *Ctx) {
 		if rr := c.UniqueCall("C19.I", p, f, false, storeIface+".ReadRequest"); rr != nil {
 			okID := false
 			if g := CallResult(Args(CallOf(rr))[3], 0, "(net/http.Header).Get"); g != nil {
-				k, _ := ConstString(g.Call.Args[1])
-				okID = k == hdrRequestID && PathOf(g.Call.Args[0]) == P(f, 3)+".Header"
+				k, _ := ConstString(PArgs(&g.Call)[1])
+				okID = k == hdrRequestID && PathOf(PArgs(&g.Call)[0]) == P(f, 3)+".Header"
 			}
 			c.Check("C19.I", "fetch:request-id-from-own-header", p, rr.Pos(), okID, "the request fetched is the one named by this call's request-ID header", "the request ID used by requestHandler is not this call's "+hdrRequestID+" header")
 			okW := false
@@ -245,14 +245,14 @@ func runC19(c *Ctx) {
 			v, _ := LiteralField(as[0], "RequestID")
 			okID := false
 			if g := CallResult(v, 0, "(net/http.Header).Get"); g != nil {
-				k, _ := ConstString(g.Call.Args[1])
-				okID = k == hdrRequestID && PathOf(g.Call.Args[0]) == P(f, 1)+".Header"
+				k, _ := ConstString(PArgs(&g.Call)[1])
+				okID = k == hdrRequestID && PathOf(PArgs(&g.Call)[0]) == P(f, 1)+".Header"
 			}
 			c.Check("C19.I", "respond:request-id-from-own-header", p, as[0].Pos(), okID, "Response.RequestID is this call's request-ID header", "Response.RequestID is not this call's "+hdrRequestID+" header")
 			cv, _ := LiteralField(as[0], "Contents")
 			okC := false
 			if ra := CallResult(cv, 0, "io/ioutil.ReadAll", "io.ReadAll"); ra != nil {
-				okC = PathOf(ra.Call.Args[0]) == P(f, 1)+".Body"
+				okC = PathOf(PArgs(&ra.Call)[0]) == P(f, 1)+".Body"
 			}
 			c.Check("C19.I", "respond:contents-is-own-body", p, as[0].Pos(), okC, "Response.Contents is this call's whole body", "Response.Contents is not ReadAll(r.Body) of this call")
 		}
@@ -314,13 +314,13 @@ func runC19(c *Ctx) {
 		if nk == nil {
 			return
 		}
-		a := CallOf(nk).Args
+		a := PArgs(CallOf(nk))
 		c.Check("C19.K", key, p, nk.Pos(), kindWant(a[1]) && PathOf(a[2]) == strings.ReplaceAll(nameWant, "$", "param:"+paramName(f, 0)) || kindWant(a[1]) && PathOf(a[2]) == nameWant, "datastore key: expected kind and name roles", fmt.Sprintf("datastore key in %s is built from kind %s and name %s, which does not agree with its sibling on the other path", fnName, PathOf(a[1]), PathOf(a[2])))
 	}
 	reqKind := func(arg string) func(ssa.Value) bool {
 		return func(v ssa.Value) bool {
 			call := CallResult(v, 0, sp+".requestKind")
-			return call != nil && PathOf(call.Call.Args[0]) == arg
+			return call != nil && PathOf(PArgs(&call.Call)[0]) == arg
 		}
 	}
 	constKind := func(k string) func(ssa.Value) bool {
@@ -393,12 +393,12 @@ func runC19(c *Ctx) {
 		okQ, okF := false, false
 		for _, fn := range WithClosures(f) {
 			for _, call := range Calls(fn, dsPkg+".NewQuery") {
-				if k := CallResult(CallOf(call).Args[0], 0, sp+".requestKind"); k != nil && PathOf(k.Call.Args[0]) == P(f, 2) {
+				if k := CallResult(PArgs(CallOf(call))[0], 0, sp+".requestKind"); k != nil && PathOf(PArgs(&k.Call)[0]) == P(f, 2) {
 					okQ = true
 				}
 			}
 			for _, call := range Calls(fn, "(*"+dsPkg+".Query).Filter") {
-				a := CallOf(call).Args
+				a := PArgs(CallOf(call))
 				k, _ := ConstString(a[1])
 				if strings.ReplaceAll(k, " ", "") == "Completed=" {
 					v := a[2]
@@ -499,7 +499,7 @@ func c19Hangs(c *Ctx, p *Prog) {
 				if g == nil || !p.IsModFunc(g) || len(g.Blocks) == 0 {
 					return
 				}
-				for k, a := range cc.Args {
+				for k, a := range PArgs(cc) {
 					if isMk(a) && k < len(g.Params) {
 						pk := g.Params[k]
 						isP := func(v ssa.Value) bool {
@@ -550,7 +550,7 @@ func c19Hangs(c *Ctx, p *Prog) {
 		sum := int64(0)
 		okc := true
 		for _, a := range adds {
-			n, isC := ConstInt(CallOf(a).Args[1])
+			n, isC := ConstInt(PArgs(CallOf(a))[1])
 			if !isC {
 				okc = false
 			}
@@ -574,7 +574,7 @@ func c19Hangs(c *Ctx, p *Prog) {
 		wt := Calls(f, "context.WithTimeout")
 		ok := len(wt) == 1
 		if ok {
-			_, isC := ConstInt(CallOf(wt[0]).Args[1])
+			_, isC := ConstInt(PArgs(CallOf(wt[0]))[1])
 			ok = isC
 		}
 		// every loop iteration passes a select with the derived ctx.Done whose arm returns
@@ -620,14 +620,14 @@ func ruleBlobParts(c *Ctx, p *Prog, rule string) {
 		}
 		okW := false
 		if nk != nil {
-			a := CallOf(nk).Args
+			a := PArgs(CallOf(nk))
 			k, _ := ConstString(a[1])
 			// the name is what gets appended to partNames
 			appended := false
 			EachInstr(f, func(i ssa.Instruction) {
 				if call, ok := i.(*ssa.Call); ok {
 					if b, isB := call.Call.Value.(*ssa.Builtin); isB && b.Name() == "append" {
-						r, _ := DerivesFrom(call.Call.Args[1], func(v ssa.Value) bool { return SameValue(v, a[2]) }, func(ssa.Value) bool { return false })
+						r, _ := DerivesFrom(PArgs(&call.Call)[1], func(v ssa.Value) bool { return SameValue(v, a[2]) }, func(ssa.Value) bool { return false })
 						if r {
 							appended = true
 						}
@@ -650,19 +650,19 @@ func ruleBlobParts(c *Ctx, p *Prog, rule string) {
 		okR := len(gm) == 1 && !conc && len(Calls(f, dsPkg+".Get")) == 0
 		okKeys := false
 		if nk := Calls(f, dsPkg+".NewKey"); len(nk) == 1 {
-			a := CallOf(nk[0]).Args
+			a := PArgs(CallOf(nk[0]))
 			k, _ := ConstString(a[1])
 			okKeys = k == "blobParts" && PathOf(a[2]) == P(f, 0)+".Parts[]"
 		}
 		// concatenation: append over the parts slice handed to GetMulti, in range order
 		okCat := false
 		if len(gm) == 1 {
-			parts := CallOf(gm[0]).Args[2]
+			parts := PArgs(CallOf(gm[0]))[2]
 			EachInstr(f, func(i ssa.Instruction) {
 				if call, ok := i.(*ssa.Call); ok {
 					if b, isB := call.Call.Value.(*ssa.Builtin); isB && b.Name() == "append" {
-						if _, fld, ok := FieldLoad(call.Call.Args[1]); ok && fld == "Bytes" {
-							r, _ := DerivesFrom(call.Call.Args[1], func(v ssa.Value) bool {
+						if _, fld, ok := FieldLoad(PArgs(&call.Call)[1]); ok && fld == "Bytes" {
+							r, _ := DerivesFrom(PArgs(&call.Call)[1], func(v ssa.Value) bool {
 								for _, pr := range Roots(parts) {
 									if v == pr {
 										return true
